@@ -786,8 +786,14 @@ class _DeleteState(_PostSortRec):
         ]
         recs.difference_update(our_recs)
         states = [self.state] + [r.state for r in our_recs]
+        # a state that a row switch turned into "listonly" while the
+        # flush was running (persistence._organize_states_for_save) has
+        # been UPDATEd in place of its replacement and is not deleted;
+        # _DeleteAll honors this via states_for_mapper_hierarchy()
         persistence._delete_obj(
-            mapper, [s for s in states if uow.states[s][0]], uow
+            mapper,
+            [s for s in states if uow.states[s][0] and not uow.states[s][1]],
+            uow,
         )
 
     def __repr__(self):
